@@ -405,6 +405,7 @@ UNITS['registry'] = dict(
         'c05_op_register_occupied_small': dict(props=['C05', 'C02', 'C18', 'C01'], kind='bounded', bound=_SHAPE_S),
         'c04_op_register_vacant': dict(props=['C04', 'C05', 'C18'], kind='bounded', bound=_SHAPE_S),
         'c02_op_handler': dict(props=['C02', 'C04', 'C03', 'C18'], kind='bounded', bound=_SHAPE_L, unwind_obl='C03.WAIT-FREE', auto_obl='C03.NO-PANIC'),
+        'c02_op_handler_tiny': dict(props=['C02', 'C03'], kind='bounded', bound='bounded(registry state: one signal with one action, symbolic id / signal number)', unwind_obl='C03.WAIT-FREE', auto_obl='C03.NO-PANIC'),
         'c14_op_register_refused': dict(props=['C14', 'C18'], kind='bounded', bound=_SHAPE_S),
         'c05_op_unregister': dict(props=['C05', 'C02', 'C18', 'C01'], tier='thorough', kind='bounded', bound=_SHAPE_L),
         'c05_op_unregister_signal': dict(props=['C05', 'C18', 'C01', 'C02'], tier='thorough', kind='bounded', bound=_SHAPE_L),
